@@ -193,7 +193,18 @@ def regenerate():
     if rc != 0:
         raise RuntimeError('floatfuncs failed:\n' + out5)
     sh([sys.executable, os.path.join(VERIF, 'tools', 'gen_equiv_ff.py'), os.path.join(LEAN, 'Proofs', 'GenEquivFF.lean')])
-    return json.load(open(status_file))
+    status = json.load(open(status_file))
+    # second tier: straight-line functions whose pinned model is hand-written (Shapes/Flatten/Arclen/Quads.lean)
+    status2_file = os.path.join(LEAN, '.lake', 'rs2lean_status2.json')
+    rc, out6 = sh([sys.executable, os.path.join(VERIF, 'tools', 'rs2lean.py'), os.path.join(REPO, 'kurbo', 'src'),
+                   os.path.join(LEAN, 'Kurbo', 'Gen', 'Kernel2.lean'), '--suffix', '_g', '--tier', '2', '--status', status2_file])
+    if rc != 0:
+        raise RuntimeError('rs2lean --tier 2 failed:\n' + out6)
+    rc, out7 = sh([sys.executable, os.path.join(VERIF, 'tools', 'gen_equiv2.py'), os.path.join(LEAN, 'Proofs', 'GenEquiv2.lean')])
+    if rc != 0:
+        raise RuntimeError('gen_equiv2 failed:\n' + out7)
+    status.update({'K2:' + k: v for k, v in json.load(open(status2_file)).items()})
+    return status
 
 
 def ff_equiv_status():
@@ -230,6 +241,30 @@ def gen_equiv_status():
             for it in status:
                 status[it] = 'proof-failed'
             return status, out
+        for bl in bad_lines:
+            owner = None
+            for ln, it in thm_at:
+                if ln <= bl:
+                    owner = it
+            if owner:
+                status[owner] = 'proof-failed'
+    return status, out
+
+
+def gen_equiv2_status():
+    """build Proofs.GenEquiv2 (second tier); returns {'K2:item': 'equal' | 'proof-failed'}"""
+    rc, out = lake_build(['Proofs.GenEquiv2'])
+    src = open(os.path.join(LEAN, 'Proofs', 'GenEquiv2.lean')).read().split('\n')
+    thm_at = []
+    for i, l in enumerate(src, 1):
+        m = re.match(r'theorem ge2_\S+ : \((\S+)_g \(K := K\)\)', l)
+        if m:
+            thm_at.append((i, 'K2:' + m.group(1)))
+    status = {it: 'equal' for _, it in thm_at}
+    if rc != 0:
+        bad_lines = [int(m.group(1)) for m in re.finditer(r'error: Proofs/GenEquiv2\.lean:(\d+):', out)]
+        if not bad_lines:
+            return {it: 'proof-failed' for it in status}, out
         for bl in bad_lines:
             owner = None
             for ln, it in thm_at:
@@ -285,7 +320,9 @@ def kernel_closure(patterns):
                     sel.add(o)
                     changed = True
     ff_sel = [n for n in ('FF:floatFuncRows', 'FF:floatSignumBody') if any(re.fullmatch(p, n) for p in patterns)]
-    return sorted(sel) + gl_sel + ff_sel
+    from kernel_items2 import ITEMS as ITEMS2
+    k2_sel = sorted('K2:' + it['lean'] for it in ITEMS2 if it['kind'] == 'fn' and any(re.fullmatch(p, 'K2:' + it['lean']) for p in patterns))
+    return sorted(sel) + gl_sel + ff_sel + k2_sel
 
 
 # theorems of Proofs/Glue.lean (combinations of results of different property files) counted as obligations of the property they complete
@@ -309,7 +346,7 @@ def glue_theorems(pid):
 
 
 # further property files of the same property (written in later rounds): every theorem in them is an obligation of that property
-EXTRA_FILES = {'C18': ['C18S'], 'C03': ['C03Q'], 'C13': ['C13B'], 'C16': ['C16B']}
+EXTRA_FILES = {'C18': ['C18S'], 'C03': ['C03Q'], 'C13': ['C13B'], 'C16': ['C16B'], 'C12': ['C12S'], 'C01': ['C01P']}
 
 
 def extra_modules(pid):
